@@ -20,5 +20,6 @@ CONSTANTS
   RLen = 3
   VecTypes = {"b", "i", "f", "l"}
   VecLen = 1
+  SinkTypes = {"b", "q", "x", "f"} SinkCaps = {1, 2} SinkLefts = {0, 3, 6, 30}
 INVARIANTS XTypeOK XDesignSound XDesignUseful XDigitsSound XPrintedSound
 CHECK_DEADLOCK FALSE
